@@ -41,46 +41,118 @@ pub(crate) fn is_suffix_at(input: &str, rest: &str, at: usize) -> bool {
         && std::ptr::eq(rest.as_ptr(), unsafe { input.as_ptr().add(at) })
 }
 
-/// Reference lexer for an integer literal over an ASCII byte string (written
-/// from the documented forms: decimal with optional '-', 0x hex, leading-0
-/// octal).  Returns (value, consumed) or None.  Only called with <= 4 bytes,
-/// so no overflow is possible.
+/// Reference lexer for an integer literal over an ASCII byte string, written from
+/// the documented forms: decimal with optional '-', 0x hex, leading-0 octal, full i64
+/// range.  A literal is the maximal run of alphanumeric digit characters (0-9a-fA-F)
+/// after the prefix / sign: a run containing a character that is not a digit of the
+/// selected radix is malformed (it is never split into a shorter literal plus a
+/// rest), an empty run is malformed, a value outside i64 is rejected.
+/// Returns (value, consumed bytes) or None.
 pub(crate) fn ref_int(buf: &[u8], n: usize) -> Option<(i64, usize)> {
     let is_hexdigit = |b: u8| hex_val(b).is_some();
-    if n >= 2 && buf[0] == b'0' && buf[1] == b'x' {
-        let mut i = 2;
-        let mut v: i64 = 0;
-        while i < n && is_hexdigit(buf[i]) {
-            v = v * 16 + hex_val(buf[i]).unwrap() as i64;
-            i += 1;
-        }
-        if i == 2 { None } else { Some((v, i)) }
+    let (radix, start, neg): (i64, usize, bool) = if n >= 2 && buf[0] == b'0' && buf[1] == b'x' {
+        (16, 2, false)
     } else if n >= 1 && buf[0] == b'0' {
-        let mut i = 0;
-        let mut v: i64 = 0;
-        let mut bad = false;
-        while i < n && is_hexdigit(buf[i]) {
-            match oct_val(buf[i]) {
-                Some(d) => v = v * 8 + d as i64,
-                None => bad = true,
-            }
-            i += 1;
-        }
-        if bad { None } else { Some((v, i)) }
+        (8, 0, false)
+    } else if n >= 1 && buf[0] == b'-' {
+        (10, 1, true)
     } else {
-        let neg = n >= 1 && buf[0] == b'-';
-        let start = if neg { 1 } else { 0 };
-        let mut i = start;
-        let mut v: i64 = 0;
-        let mut bad = false;
-        while i < n && is_hexdigit(buf[i]) {
-            match buf[i] {
-                b'0'..=b'9' => v = v * 10 + (buf[i] - b'0') as i64,
-                _ => bad = true,
-            }
-            i += 1;
+        (10, 0, false)
+    };
+    let mut i = start;
+    // accumulate on the negative side so that i64::MIN is representable
+    let mut v: Option<i64> = Some(0);
+    let mut bad = false;
+    while i < n && is_hexdigit(buf[i]) {
+        let d = hex_val(buf[i]).unwrap() as i64;
+        if d >= radix {
+            bad = true;
+        } else {
+            v = match v {
+                Some(x) => match x.checked_mul(radix) {
+                    Some(y) => y.checked_sub(d),
+                    None => None,
+                },
+                None => None,
+            };
         }
-        if i == start || bad { None } else { Some((if neg { -v } else { v }, i)) }
+        i += 1;
+    }
+    if i == start || bad {
+        return None;
+    }
+    match v {
+        Some(x) if neg => Some((x, i)),
+        Some(x) => x.checked_neg().map(|y| (y, i)),
+        None => None,
     }
 }
 
+/// CONTRACT STUB for `<i64 as Lex>::lex` (used by the IntRange obligations): the
+/// reference lexer above; an error otherwise (the property does not fix error kinds).
+/// The real `i64::lex` is discharged against the same reference by
+/// `rhs_types::int::verif_kani::c06::i64_lex__*`.
+// (`'a` mirrors the impl's early-bound lifetime: Kani wants the same number of generics)
+pub(crate) fn i64_lex__contract<'a>(input: &str) -> LexResult<'_, i64>
+where
+    'a: 'a,
+{
+    match ref_int(input.as_bytes(), input.len()) {
+        Some((v, n)) => Ok((v, &input[n..])),
+        None => Err((LexErrorKind::ExpectedName("digit"), input)),
+    }
+}
+
+/// CONTRACT STUB for `lex::expect(input, s)` (used with `#[kani::stub]` by the C06/C07
+/// obligations on lexers that call `expect`).  It implements expect's contract -
+/// `Ok(rest)` iff `input` starts with `s`, where `rest` is `input` minus that prefix;
+/// otherwise `Err((ExpectedLiteral(s), input))` - without any loop (the prefix
+/// comparison is spelled out byte by byte for literals of up to 16 bytes), so that
+/// the callers can be checked with a small unwind bound: every `if let Ok(..) =
+/// expect(..)` in the real lexers drops a `Result<&str, LexError>`, whose niche-encoded
+/// tag CBMC does not fold, and the dead drop glue (two BTreeSet drops inside
+/// LexErrorKind) is explored once per unwinding.  The real `expect` is discharged
+/// against the same contract by `lex::verif_kani::c07::expect__*`.
+pub(crate) fn expect__contract<'i>(input: &'i str, s: &'static str) -> Result<&'i str, LexError<'i>> {
+    let a = input.as_bytes();
+    let b = s.as_bytes();
+    let n = b.len();
+    assert!(n <= 16, "expect__contract: literal longer than the spelled-out comparison");
+    let mut ok = a.len() >= n;
+    macro_rules! byte {
+        ($($i:literal)*) => {$(
+            if ok && n > $i {
+                ok = a[$i] == b[$i];
+            }
+        )*};
+    }
+    byte!(0 1 2 3 4 5 6 7 8 9 10 11 12 13 14 15);
+    if ok {
+        Ok(&input[n..])
+    } else {
+        Err((LexErrorKind::ExpectedLiteral(s), input))
+    }
+}
+
+/// CONTRACT STUB for `lex::skip_space(input)`: `input` minus its maximal prefix over
+/// {' ', '\r', '\n'} (tab is not white space), spelled out without a loop for up to 8
+/// leading blanks (more than 8 is reported as a failed assertion, never assumed away).
+/// The real `skip_space` is discharged against this contract by
+/// `lex::verif_kani::c07::skip_space__contract_len*`.
+pub(crate) fn skip_space__contract(input: &str) -> &str {
+    let a = input.as_bytes();
+    let mut k = 0;
+    macro_rules! blank {
+        ($($i:literal)*) => {$(
+            if k == $i && a.len() > $i && (a[$i] == b' ' || a[$i] == b'\r' || a[$i] == b'\n') {
+                k = $i + 1;
+            }
+        )*};
+    }
+    blank!(0 1 2 3 4 5 6 7);
+    assert!(
+        !(k == 8 && a.len() > 8 && (a[8] == b' ' || a[8] == b'\r' || a[8] == b'\n')),
+        "skip_space__contract: more leading blanks than the spelled-out range"
+    );
+    &input[k..]
+}
